@@ -38,6 +38,10 @@ def is_transparent(path):
     return path.endswith(TRANSPARENT_SUFFIX) or path in TRANSPARENT_EXACT or path.endswith("::clone")
 
 
+# adaptors that keep the Ok/Some-ness of their receiver (only the error side is transformed)
+OK_PRESERVING = ("core::result::Result::map_err", "core::option::Option::ok_or", "core::option::Option::ok_or_else")
+
+
 def is_try_branch(path):
     return path.endswith("core::ops::try_trait::Try>::branch")
 
@@ -542,7 +546,7 @@ def result_edges(fn, call):
         if t["k"] == "call":
             c = t["callee"]["path"]
             args_l = [op_place(a)["l"] for a in t["args"] if op_place(a) and not op_place(a)["p"]]
-            if (is_try_branch(c) or is_transparent(c)) and args_l and args_l[0] in aliases and not t["dest"]["p"]:
+            if (is_try_branch(norm(c)) or is_transparent(norm(c)) or norm(c).endswith(OK_PRESERVING)) and args_l and args_l[0] in aliases and not t["dest"]["p"]:
                 aliases.add(t["dest"]["l"])
                 bb = t["t"]
                 if bb < 0:
@@ -578,7 +582,10 @@ def err_propagates(fn, call):
     e = result_edges(fn, call)
     err = e.get("err")
     if err is None:
-        return False
+        # tail position: the call's value is (one of) the function's return value(s), unchanged
+        r = Prov(fn).local(0)
+        alts = r[1] if r[0] == "phi" else [r]
+        return any(a[0] == "call" and a[3] is call for a in alts)
     seen = fn.reach_from(err)
     for b in seen:
         t = fn.blocks[b]["term"]
@@ -873,3 +880,37 @@ def constraint_subject(prov, key):
         elif pk[0] == "dc":
             e = ("as", e, pk[1])
     return e
+
+
+def check_chain(ctx, fn, prov, label, steps, final_ok=True, rule="R-MUST"):
+    """steps: [(name, call predicate, [arg predicates or None], description)].  Verifies that each step is
+    called exactly once, its error is propagated (`?`), every later step is reachable only after the
+    earlier step returned Ok, and (final_ok) every `Ok(..)` exit is dominated by the last step's Ok edge.
+    Returns the matched calls (or None)."""
+    calls = []
+    for name, pred, argpreds, desc in steps:
+        cs = fn.calls_to(pred)
+        if not ctx.require(len(cs) == 1, rule, "%s:%s:present" % (label, name), "%s called once" % desc,
+                           "%s: expected exactly one call to %s, found %d" % (fn.path, desc, len(cs))):
+            return None
+        c = cs[0]
+        calls.append(c)
+        ctx.require(err_propagates(fn, c), rule, "%s:%s:propagated" % (label, name), "Err of %s is propagated with ?" % desc,
+                    "%s: the error of %s is not propagated (ignored or swallowed)" % (fn.path, desc), sample={"site": c.loc()})
+        if argpreds:
+            for i, ap in enumerate(argpreds):
+                if ap is None:
+                    continue
+                e = prov.operand(c.args[i])
+                ctx.require(ap(e), "R-FLOW", "%s:%s:arg%d" % (label, name, i), "%s arg %d = %s" % (desc, i, show(e)[:100]),
+                            "%s: argument %d of %s is `%s`" % (fn.path, i, desc, show(e)[:200]))
+    for (n1, *_), c1, (n2, *_), c2 in zip(steps, calls, steps[1:], calls[1:]):
+        ctx.require(guarded_by_ok(fn, c1, c2.bb), "R-GUARD", "%s:%s-before-%s" % (label, n1, n2), "%s only after %s returned Ok" % (n2, n1),
+                    "%s: %s is reachable without %s having returned Ok" % (fn.path, n2, n1))
+    if final_ok and calls:
+        okb = result_edges(fn, calls[-1]).get("ok")
+        ok_exits = [bi for bi, si, s in fn.stmts() if s["lhs"]["l"] == 0 and not s["lhs"]["p"] and s["rv"]["k"] == "agg" and s["rv"].get("variant") == "Ok"]
+        ctx.require(okb is not None and ok_exits and all(fn.dominates(okb, b) for b in ok_exits), rule, "%s:ok-needs-all" % label,
+                    "every Ok exit is dominated by the Ok edge of %s" % steps[-1][0],
+                    "%s can return Ok without %s having succeeded" % (fn.path, steps[-1][0]))
+    return calls
